@@ -119,17 +119,19 @@ def reader_routes(ctx, tables, paths, versions, cur3, p3):
         fmt = ["klmGac", "podGac", "klmLac", "podLac"][k % 4 if k % 8 < 6 else 0]
         route = ["params-both", "legacy-both", "legacy-custom", "legacy-file", "params-file", "params-custom", "legacy-both-empty",
                  "params-both-empty"][k % 8]
-        if fmt not in built:
-            pb = filegen.PassBuilder(ctx, fmt, 7, random.Random(repr(("c16r", fmt))))
-            built[fmt] = (pb.tobytes(), pb.dsname)
-        data, name = built[fmt]
+        # the file's spacecraft rotates over every spacecraft of the family; its NAME is taken from the user's-guide id table
+        # (filegen.PLATFORMS), not from the reader's
+        fam = filegen.FMT[fmt]["family"]
+        kp = (k // 4) % len(filegen.PLATFORMS[fam])
+        if (fmt, kp) not in built:
+            pb, sat_name = filegen.platform_pass(ctx, fmt, 7, random.Random(repr(("c16r", fmt, kp))), kp)
+            built[(fmt, kp)] = (pb.tobytes(), pb.dsname, sat_name)
+        data, name, sat = built[(fmt, kp)]
         f = rng.choice([1, 2, 3])
         if paths[f] == p3:
             f = cur3
         if route in ("legacy-custom", "params-custom"):
             f = 0
-        probe = filegen.reader_class(fmt)
-        sat = probe.spacecraft_names[filegen.FMT[fmt]["sat_id"]]
         keys = sorted(tables[f][sat])
         custom = {}
         if route not in ("legacy-file", "params-file", "legacy-both-empty", "params-both-empty"):
@@ -155,7 +157,7 @@ def reader_routes(ctx, tables, paths, versions, cur3, p3):
             def __getattr__(self, nm):
                 return getattr(real, nm)
         spy = _Spy()
-        payload = {"route": route, "fmt": fmt, "file": f, "custom_keys": sorted(custom)}
+        payload = {"route": route, "fmt": fmt, "file": f, "custom_keys": sorted(custom), "spacecraft": sat}
         noaa.Calibrator = spy
         try:
             with warnings.catch_warnings():
@@ -452,6 +454,12 @@ def replay(ctx, path):
         body = json.load(fh)
     hist = body.get("input", {}).get("history")
     if not hist:
+        inp = body.get("input") or {}
+        if inp.get("route") or inp.get("stream"):
+            print("input:", json.dumps(inp))
+            print("what :", body.get("what"))
+            print("re-run ./check C16 --tier quick with VERIF_SEED=%s to regenerate the same case" % body.get("seed"))
+            return 1
         print("replay file carries no history: %s" % body.get("broken_theorems_or_obligations"))
         return 1
     print("history:", hist)
